@@ -261,12 +261,21 @@ def robust(b, con, zs, fset):
 
 
 def build_ro(b, kind):
+    """RO model with a 2-entry decision rule (rows with different coefficients) and a further random variable w that
+    is part of the set and of a constraint.  Under R2 (variable order) w is declared AFTER y.adapt(z) and before the
+    first use of the rule (ro front end only: the dro front end refuses / mishandles that order, a C09 finding)."""
     p = b.p
-    v = b.declare([('x', 'dvar', 2), ('y', 'ldr', ()), ('z', 'rvar', 2)])
+    late_w = b.has('R2') in ('v', 'vc') and not b.dro_fe
+    specs = [('x', 'dvar', 2), ('y', 'ldr', 2), ('z', 'rvar', 2)] + ([] if late_w else [('w', 'rvar', 1)])
+    v = b.declare(specs)
     x, y, z = v['x'], v['y'], v['z']
     y.adapt(z)
+    w = b.m.rvar(1) if late_w else v['w']
+
+    def zs_():
+        return zset(b, z, kind) + list(b.box(w, np.array([-1.0]), np.array([0.5])))
     fset = None
-    zs = zset(b, z, kind)
+    zs = zs_()
     if b.dro_fe:
         fset = b.m.ambiguity()
         fset.suppset(*b.coll(zs))
@@ -279,14 +288,17 @@ def build_ro(b, kind):
         e1 = d[0] * z[0] + d[1] * z[1] + 1 - x[0]
     else:
         e1 = d @ z + 1 - x[0]
-    b.collect([robust(b, b.geq(y, e1), zset(b, z, kind), fset)])
-    b.collect([b.geq(y, 0.5 * z[1] + 0.25)])
+    b.collect([robust(b, b.geq(y[0], e1), zs_(), fset)])
+    b.collect([b.geq(y[0], 0.5 * z[1] + 0.25)])
+    b.collect([b.geq(y[1], 0.5 * z[0] - 1.0 * z[1] + 0.125 * w.sum())])
+    b.collect([b.geq(y[1], -0.25 * z[0] - 0.75)])
+    b.collect([b.geq(x[0], y[1] - 0.5 * z[0] + 1.0 * z[1] - 0.25)])     # pays only if row 1 follows its own target
     if b.has('R6'):
-        e2 = 0.5 * x[0] * z[0] + 0.5 * x[1] * z[1] + 2 * x[0] - x[1]
+        e2 = 0.5 * x[0] * z[0] + 0.5 * x[1] * z[1] + 2 * x[0] - x[1] + 0.25 * w[0]
     else:
-        e2 = (0.5 * x * z).sum() + 2 * x[0] - x[1]
+        e2 = (0.5 * x * z).sum() + 2 * x[0] - x[1] + 0.25 * w.sum()
     b.collect([b.geq(e2, -1.0)])
-    obj = p['c'][0] * x[0] - 0.5 * x[1] + y + 0.5 * z[0]
+    obj = p['c'][0] * x[0] - 0.5 * x[1] + y[0] + 0.5 * y[1] + 0.5 * z[0] + 0.25 * w.sum()
     if b.dro_fe:
         b.finish(obj, fset)
     else:
